@@ -75,3 +75,18 @@ NOT_COVERED["C10"] = [
     "F-C10-1 (known finding): margin level exactly 0 with margin in use is let through",
 ]
 ASSUMPTIONS.setdefault("C10", [])
+
+NOT_COVERED["C04"] = [
+    "the rounded price bound is proved for limit / stop-limit fills at the point where the fill is recorded (site assertion at Order.add_fill) from _round_balance_updates.price_kept; the other price clauses (never better than the bar's extreme, market/stop inside the range, not better than open / stop) are proved on the unrounded amounts returned by get_balance_updates -- their rounded forms follow from price_kept by the same instantiation but are not stated as separate obligations",
+    "completeness ('completely filled by the next bar ...') is the `complete` clause of each get_balance_updates contract (amount = pending when the liquidity is infinite / sufficient); 'ample funds' (the account update succeeding) is not part of it",
+    "user-defined order subclasses: only the type-conditional base contract",
+]
+NOT_COVERED["C08"] = [
+    "'every reported available, on-hold and borrowed balance is a multiple of the precision' is proved per fill (the maps recorded by add_fill and applied to the account are on the grid: _round_balance_updates.grid, _round_fees.grid, order_grid_base); the account-level invariant over a whole history (initial balances and loan amounts on the grid) is not stated as one invariant",
+    "the per-bar liquidity cap is the LiquidityStrategy contract (used <= granted, reset by on_bar) plus _process_order.liquidity (used grows by exactly the filled base amount); the sum over all orders of a bar is by that counter, not by a finite sum",
+]
+NOT_COVERED["C11"] = [
+    "'when an auto-repay order closes, open loans in the symbol it acquired are repaid largest first as far as funds allow': OrderManager._repay_loans is under a TRUSTED contract (list.sort with key/reverse and the try/except loop are not verified); the trusted contract also assumes that repay_loan raises nothing but NotEnoughBalance there (a NoPrice from interest conversion would escape)",
+    "LoanManager.get_loans / get_loan listings are TRUSTED (iteration plumbing)",
+    "'loans are closed only by ...' is the frame of every contract: Loan._is_open is in the modifies clause of LoanManager.repay_loan and cancel_loan only (cancel_loan asserts the loan was created at the current instant: the rollback of an auto-borrow)",
+]
